@@ -264,6 +264,18 @@ class StaticUseDep(packages.PackageRestriction):
 class _UseDepDefaultContainment(values.ContainmentMatch, caching=False):
     __slots__ = ("if_missing",)
 
+    def __eq__(self, other):
+        # A plain ContainmentMatch over the same flags, or one with the other
+        # default, behaves differently; it must not be taken for this one (the
+        # instance cache of AndRestriction looks its arguments up by equality).
+        return (
+            self.__class__ is other.__class__
+            and self.if_missing == other.if_missing
+            and values.ContainmentMatch.__eq__(self, other)
+        )
+
+    __hash__ = values.ContainmentMatch.__hash__
+
     def __init__(self, if_missing: bool, vals, negate=False):
         self.if_missing = bool(if_missing)
         # enabled flags must all be contained; disabled flags (negate) must
